@@ -389,6 +389,11 @@ def tableform_case(n, layout, history=False):
       for t in sym_tuples:
         f = reg[t.name]()
         out[t.name] = [term(f(q)), term(f.deriv(q)), term(f.deriv2(q))]
+        # a second object of the same form asked in the opposite order (second derivative first)
+        g = reg[t.name]()
+        d2 = term(g.deriv2(q))
+        d1 = term(g.deriv(q))
+        out[t.name] += [term(g(q)), d1, d2]
       calls = [(c.x, c.y, dict(c.kw)) for c in _Interp.calls]
     finally:
       si.InterpolatedUnivariateSpline = saved
@@ -428,6 +433,14 @@ def tableform_case(n, layout, history=False):
         vcs.append(VC("%s.y[%d]" % (name, i), term(cy[i]) == Y[i], info=dict(key="tableform-y-data")))
       for k, nm in enumerate(["I", "d_I", "d2_I"]):
         vcs.append(VC("%s.%s" % (name, nm), terms[k] == z3.Function(nm + str(k_), R, R)(q), info=dict(key="tableform-wiring-" + nm)))
+      if len(terms) >= 6:
+        # the object asked for deriv2 first: same three functions (of whichever interpolant object it built from the same data)
+        dn2 = terms[3].decl().name() if z3.is_app(terms[3]) else ""
+        if not (dn2.startswith("I") and dn2[1:].isdigit() and int(dn2[1:]) < len(calls)):
+          raise Structural("not-interpolant", "second object of table form %s does not evaluate an interpolant: %s" % (name, terms[3]))
+        j_ = dn2[1:]
+        for k, nm in enumerate(["I", "d_I", "d2_I"]):
+          vcs.append(VC("%s.%s (deriv2 asked first)" % (name, nm), terms[3 + k] == z3.Function(nm + j_, R, R)(q), info=dict(key="tableform-wiring-order-" + nm)))
     if len(out) == 2:
       a, b = sorted(out)
       # same data, same interpolation settings -> same function (the interpolant is a function of its arguments)
@@ -486,6 +499,11 @@ def replay_tableform(n, history=False):
     dn = (pa(x + h) - pa(x - h)) / (2 * h)
     if abs(pa.deriv(x) - dn) > 1e-5 * max(1, abs(dn)):
       bad.append("deriv at %r is %r, finite difference %r" % (x, pa.deriv(x), dn))
+    # a fresh object asked for the second derivative first
+    pc = Configuration().read(io.StringIO(text)).potentials[0].potentialFunction
+    d2 = pc.deriv2(x)
+    if abs(pc.deriv(x) - dn) > 1e-5 * max(1, abs(dn)) or abs(d2 - pa.deriv2(x)) > 1e-9 * max(1, abs(d2)):
+      bad.append("asked for deriv2 first, then deriv at %r: %r / %r; finite difference of the values %r, deriv2 of an object asked in the usual order %r" % (x, d2, pc.deriv(x), dn, pa.deriv2(x)))
   return (bool(bad), "; ".join(bad[:3]) or "table forms pass through their data, vanish outside and agree", dict(kind="tableform", x=xs, y=ys))
 
 
